@@ -67,7 +67,7 @@ theorem mapL_eq (f : Q → Q) (cs : List Q) : mapL f cs = cs.map (map f) := by
   | nil => simp [mapL]
   | cons c cs ih => simp [mapL, ih]
 
-theorem wfL_eq (nb nt : Bool) (cs : List Q) : wfL nb nt cs = cs.all (wf nb nt) := by
+theorem wfL_eq (pb : Str → Bool → Bool) (nt : Bool) (cs : List Q) : wfL pb nt cs = cs.all (wf pb nt) := by
   induction cs with
   | nil => simp [wfL]
   | cons c cs ih => simp [wfL, ih]
@@ -93,23 +93,31 @@ theorem eval_leaf (q : Q) (h : isLeaf q = true) (ctx s d) :
 /-- a document of the corpus that the search loop looks at -/
 def InCorpus (ctx : List Shard) (s : Shard) (d : Doc) : Prop := s ∈ ctx ∧ d ∈ s.docs ∧ s.live d = true
 
-/-- `D` is a legitimate set of documents for statements about trees satisfying `wf nb nt`: if `type:repo` nodes are
+/-- `D` is a legitimate set of documents for statements about trees satisfying `wf pb nt`: if `type:repo` nodes are
     allowed (`nt = false`), `D` must be exactly the live documents of the corpus, because `type:repo` evaluates
     its child on all of them -/
 def ScopeOK (ctx : List Shard) (nt : Bool) (D : Shard → Doc → Prop) : Prop :=
   nt = false → ∀ s d, D s d ↔ InCorpus ctx s d
 
-/-- `f` keeps `wf nb nt` and preserves the reference evaluation on `D` -/
-def Pres (ctx : List Shard) (nb nt : Bool) (D : Shard → Doc → Prop) (f : Q → Q) : Prop :=
-  ∀ q, wf nb nt q = true → wf nb nt (f q) = true ∧ ∀ s d, D s d → eval (f q) ctx s d = eval q ctx s d
+/-- `f` keeps `wf pb nt` and preserves the reference evaluation on `D` -/
+def Pres (ctx : List Shard) (pb : Str → Bool → Bool) (nt : Bool) (D : Shard → Doc → Prop) (f : Q → Q) : Prop :=
+  ∀ q, wf pb nt q = true → wf pb nt (f q) = true ∧ ∀ s d, D s d → eval (f q) ctx s d = eval q ctx s d
+
+/-- the `Branch` atoms admitted by `pb` that have an empty pattern are true on `D` (what folding them to TRUE needs) -/
+def BranchOK (ctx : List Shard) (pb : Str → Bool → Bool) (D : Shard → Doc → Prop) : Prop :=
+  ∀ pat e, pb pat e = true → pat.isEmpty = true → ∀ s d, D s d → eval (.branch pat e) ctx s d = true
+
+theorem branchOK_noEmpty (ctx : List Shard) (D : Shard → Doc → Prop) : BranchOK ctx noEmpty D := by
+  intro pat e h hp
+  simp [noEmpty, hp] at h
 
 theorem scope_incorpus (ctx : List Shard) : ScopeOK ctx false (InCorpus ctx) := fun _ _ _ => Iff.rfl
 
 theorem scope_nt (ctx : List Shard) (D) : ScopeOK ctx true D := fun h => by cases h
 
 /-- evaluation of `type:repo` only depends on the child's value on `D` -/
-theorem eval_type_congr {ctx nb nt D} (hD : ScopeOK ctx nt D) (t : Nat) (c c' : Q)
-    (hwf : wf nb nt (.type t c) = true)
+theorem eval_type_congr {ctx pb nt D} (hD : ScopeOK ctx nt D) (t : Nat) (c c' : Q)
+    (hwf : wf pb nt (.type t c) = true)
     (h : ∀ s d, D s d → eval c' ctx s d = eval c ctx s d) :
     ∀ s d, D s d → eval (.type t c') ctx s d = eval (.type t c) ctx s d := by
   intro s d hd
@@ -138,16 +146,16 @@ theorem map_leaf (f : Q → Q) (q : Q) (h : isLeaf q = true) : map f q = f q := 
   cases q <;> first | rfl | simp [isLeaf] at h
 
 /-- `Map(q, f)` preserves meaning when `f` does -/
-theorem map_pres {ctx nb nt D} (hD : ScopeOK ctx nt D) (f : Q → Q) (hf : Pres ctx nb nt D f) :
-    Pres ctx nb nt D (map f) := by
+theorem map_pres {ctx pb nt D} (hD : ScopeOK ctx nt D) (f : Q → Q) (hf : Pres ctx pb nt D f) :
+    Pres ctx pb nt D (map f) := by
   intro q
   induction q using Q.ind with
   | hconst v => intro h; exact hf _ h
   | hand cs ih =>
     intro h
-    have hw : ∀ c ∈ cs, wf nb nt c = true := by
+    have hw : ∀ c ∈ cs, wf pb nt c = true := by
       simpa [wf, wfL_eq] using h
-    have h1 : wf nb nt (.and (mapL f cs)) = true := by
+    have h1 : wf pb nt (.and (mapL f cs)) = true := by
       simp only [wf, wfL_eq, mapL_eq, List.all_map, List.all_eq_true]
       intro c hc; exact (ih c hc (hw c hc)).1
     obtain ⟨h2, h3⟩ := hf _ h1
@@ -160,9 +168,9 @@ theorem map_pres {ctx nb nt D} (hD : ScopeOK ctx nt D) (f : Q → Q) (hf : Pres 
     exact all_congr_mem (fun c hc => (ih c hc (hw c hc)).2 s d hd)
   | hor cs ih =>
     intro h
-    have hw : ∀ c ∈ cs, wf nb nt c = true := by
+    have hw : ∀ c ∈ cs, wf pb nt c = true := by
       simpa [wf, wfL_eq] using h
-    have h1 : wf nb nt (.or (mapL f cs)) = true := by
+    have h1 : wf pb nt (.or (mapL f cs)) = true := by
       simp only [wf, wfL_eq, mapL_eq, List.all_map, List.all_eq_true]
       intro c hc; exact (ih c hc (hw c hc)).1
     obtain ⟨h2, h3⟩ := hf _ h1
@@ -175,9 +183,9 @@ theorem map_pres {ctx nb nt D} (hD : ScopeOK ctx nt D) (f : Q → Q) (hf : Pres 
     exact any_congr_mem (fun c hc => (ih c hc (hw c hc)).2 s d hd)
   | hnot c ih =>
     intro h
-    have hw : wf nb nt c = true := by simpa [wf] using h
+    have hw : wf pb nt c = true := by simpa [wf] using h
     obtain ⟨i1, i2⟩ := ih hw
-    have h1 : wf nb nt (.not (map f c)) = true := by simpa [wf] using i1
+    have h1 : wf pb nt (.not (map f c)) = true := by simpa [wf] using i1
     obtain ⟨h2, h3⟩ := hf _ h1
     refine ⟨by simpa [map] using h2, ?_⟩
     intro s d hd
@@ -186,10 +194,10 @@ theorem map_pres {ctx nb nt D} (hD : ScopeOK ctx nt D) (f : Q → Q) (hf : Pres 
     simp only [eval, i2 s d hd]
   | htype t c ih =>
     intro h
-    have hw : wf nb nt c = true := by
+    have hw : wf pb nt c = true := by
       simp only [wf, Bool.and_eq_true] at h; exact h.2
     obtain ⟨i1, i2⟩ := ih hw
-    have h1 : wf nb nt (.type t (map f c)) = true := by
+    have h1 : wf pb nt (.type t (map f c)) = true := by
       simp only [wf, Bool.and_eq_true] at h ⊢; exact ⟨h.1, i1⟩
     obtain ⟨h2, h3⟩ := hf _ h1
     refine ⟨by simpa [map] using h2, ?_⟩
@@ -199,9 +207,9 @@ theorem map_pres {ctx nb nt D} (hD : ScopeOK ctx nt D) (f : Q → Q) (hf : Pres 
     exact eval_type_congr hD t c (map f c) h i2 s d hd
   | hboost w c ih =>
     intro h
-    have hw : wf nb nt c = true := by simpa [wf] using h
+    have hw : wf pb nt c = true := by simpa [wf] using h
     obtain ⟨i1, i2⟩ := ih hw
-    have h1 : wf nb nt (.boost w (map f c)) = true := by simpa [wf] using i1
+    have h1 : wf pb nt (.boost w (map f c)) = true := by simpa [wf] using i1
     obtain ⟨h2, h3⟩ := hf _ h1
     refine ⟨by simpa [map] using h2, ?_⟩
     intro s d hd
@@ -265,8 +273,8 @@ theorem foldConsts_or (l : List Q) (ctx s d) :
         · simp
         · exact List.mem_cons_of_mem _ (ih.2 c hc)
 
-theorem andOrConstants_and (l : List Q) (nb nt : Bool) (hw : ∀ c ∈ l, wf nb nt c = true) (ctx s d) :
-    wf nb nt (andOrConstants true l) = true ∧
+theorem andOrConstants_and (l : List Q) (pb : Str → Bool → Bool) (nt : Bool) (hw : ∀ c ∈ l, wf pb nt c = true) (ctx s d) :
+    wf pb nt (andOrConstants true l) = true ∧
     eval (andOrConstants true l) ctx s d = l.all (fun c => eval c ctx s d) := by
   have h := foldConsts_and l ctx s d
   unfold andOrConstants
@@ -279,8 +287,8 @@ theorem andOrConstants_and (l : List Q) (nb nt : Bool) (hw : ∀ c ∈ l, wf nb 
     simp only [wf, wfL_eq, List.all_eq_true]
     exact fun c hc => hw c (h.2 c hc)
 
-theorem andOrConstants_or (l : List Q) (nb nt : Bool) (hw : ∀ c ∈ l, wf nb nt c = true) (ctx s d) :
-    wf nb nt (andOrConstants false l) = true ∧
+theorem andOrConstants_or (l : List Q) (pb : Str → Bool → Bool) (nt : Bool) (hw : ∀ c ∈ l, wf pb nt c = true) (ctx s d) :
+    wf pb nt (andOrConstants false l) = true ∧
     eval (andOrConstants false l) ctx s d = l.any (fun c => eval c ctx s d) := by
   have h := foldConsts_or l ctx s d
   unfold andOrConstants
@@ -300,8 +308,8 @@ theorem live_repoOf {s : Shard} {d : Doc} (h : s.live d = true) : ∃ r, s.repoO
   | some r => exact ⟨r, rfl, by simpa [hr] using h⟩
 
 /-- a `Type` node over a child that is constant on `D` has that constant value on `D` -/
-theorem eval_type_const {ctx nb nt D} (hD : ScopeOK ctx nt D) (t : Nat) (c : Q) (v : Bool)
-    (hwf : wf nb nt (.type t c) = true)
+theorem eval_type_const {ctx pb nt D} (hD : ScopeOK ctx nt D) (t : Nat) (c : Q) (v : Bool)
+    (hwf : wf pb nt (.type t c) = true)
     (h : ∀ s d, D s d → eval c ctx s d = v) :
     ∀ s d, D s d → eval (.type t c) ctx s d = v := by
   intro s d hd
@@ -334,8 +342,8 @@ theorem eval_type_const {ctx nb nt D} (hD : ScopeOK ctx nt D) (t : Nat) (c : Q) 
 
 theorem eval_const (v : Bool) (ctx s d) : eval (.const v) ctx s d = v := by simp [eval]
 
-theorem evalConstantsF_pres {ctx nb nt D} (hnb : nb = true) (hD : ScopeOK ctx nt D) (hlive : ∀ s d, D s d → s.live d = true) (n : Nat) :
-    Pres ctx nb nt D (evalConstantsF n) := by
+theorem evalConstantsF_pres {ctx pb nt D} (hbr : BranchOK ctx pb D) (hD : ScopeOK ctx nt D) (hlive : ∀ s d, D s d → s.live d = true) (n : Nat) :
+    Pres ctx pb nt D (evalConstantsF n) := by
   induction n with
   | zero => intro q h; exact ⟨by simpa [evalConstantsF] using h, fun s d _ => by simp [evalConstantsF]⟩
   | succ n ih =>
@@ -343,33 +351,33 @@ theorem evalConstantsF_pres {ctx nb nt D} (hnb : nb = true) (hD : ScopeOK ctx nt
     intro q h
     cases q with
     | and cs =>
-      have hw : ∀ c ∈ cs, wf nb nt c = true := by simpa [wf, wfL_eq] using h
-      have hw' : ∀ c ∈ mapL (evalConstantsF n) cs, wf nb nt c = true := by
+      have hw : ∀ c ∈ cs, wf pb nt c = true := by simpa [wf, wfL_eq] using h
+      have hw' : ∀ c ∈ mapL (evalConstantsF n) cs, wf pb nt c = true := by
         intro c hc
         rw [mapL_eq, List.mem_map] at hc
         obtain ⟨c0, hc0, rfl⟩ := hc
         exact (ihm c0 (hw c0 hc0)).1
       simp only [evalConstantsF]
-      refine ⟨(andOrConstants_and _ nb nt hw' ctx default default).1, ?_⟩
+      refine ⟨(andOrConstants_and _ pb nt hw' ctx default default).1, ?_⟩
       intro s d hd
-      rw [(andOrConstants_and _ nb nt hw' ctx s d).2]
+      rw [(andOrConstants_and _ pb nt hw' ctx s d).2]
       simp only [eval, evalAll_eq, mapL_eq, List.all_map]
       exact all_congr_mem (fun c hc => (ihm c (hw c hc)).2 s d hd)
     | or cs =>
-      have hw : ∀ c ∈ cs, wf nb nt c = true := by simpa [wf, wfL_eq] using h
-      have hw' : ∀ c ∈ mapL (evalConstantsF n) cs, wf nb nt c = true := by
+      have hw : ∀ c ∈ cs, wf pb nt c = true := by simpa [wf, wfL_eq] using h
+      have hw' : ∀ c ∈ mapL (evalConstantsF n) cs, wf pb nt c = true := by
         intro c hc
         rw [mapL_eq, List.mem_map] at hc
         obtain ⟨c0, hc0, rfl⟩ := hc
         exact (ihm c0 (hw c0 hc0)).1
       simp only [evalConstantsF]
-      refine ⟨(andOrConstants_or _ nb nt hw' ctx default default).1, ?_⟩
+      refine ⟨(andOrConstants_or _ pb nt hw' ctx default default).1, ?_⟩
       intro s d hd
-      rw [(andOrConstants_or _ nb nt hw' ctx s d).2]
+      rw [(andOrConstants_or _ pb nt hw' ctx s d).2]
       simp only [eval, evalAny_eq, mapL_eq, List.any_map]
       exact any_congr_mem (fun c hc => (ihm c (hw c hc)).2 s d hd)
     | not c =>
-      have hw : wf nb nt c = true := by simpa [wf] using h
+      have hw : wf pb nt c = true := by simpa [wf] using h
       obtain ⟨i1, i2⟩ := ih c hw
       simp only [evalConstantsF]
       split
@@ -380,7 +388,7 @@ theorem evalConstantsF_pres {ctx nb nt D} (hnb : nb = true) (hD : ScopeOK ctx nt
         simp [eval, ← this]
       · refine ⟨by simpa [wf] using i1, fun s d hd => by simp [eval, i2 s d hd]⟩
     | type t c =>
-      have hw : wf nb nt c = true := by
+      have hw : wf pb nt c = true := by
         simp only [wf, Bool.and_eq_true] at h; exact h.2
       obtain ⟨i1, i2⟩ := ih c hw
       simp only [evalConstantsF]
@@ -396,7 +404,7 @@ theorem evalConstantsF_pres {ctx nb nt D} (hnb : nb = true) (hD : ScopeOK ctx nt
       · refine ⟨?_, fun s d hd => eval_type_congr hD t c _ h i2 s d hd⟩
         simp only [wf, Bool.and_eq_true] at h ⊢; exact ⟨h.1, i1⟩
     | boost w c =>
-      have hw : wf nb nt c = true := by simpa [wf] using h
+      have hw : wf pb nt c = true := by simpa [wf] using h
       obtain ⟨i1, i2⟩ := ih c hw
       simp only [evalConstantsF]
       split
@@ -426,7 +434,9 @@ theorem evalConstantsF_pres {ctx nb nt D} (hnb : nb = true) (hD : ScopeOK ctx nt
       simp only [evalConstantsF]
       split
       · rename_i hp
-        simp [wf, hp, hnb] at h
+        refine ⟨by simp [wf], fun s d hd => ?_⟩
+        rw [eval_const]
+        exact (hbr pat exact (by simpa [wf] using h) hp s d hd).symm
       · exact ⟨h, fun _ _ _ => rfl⟩
     | branchesRepos l =>
       simp only [evalConstantsF]
@@ -797,8 +807,8 @@ theorem evalList_append (b l1 l2 ctx s d) :
       else evalList b l1 ctx s d || evalList b l2 ctx s d) := by
   cases b <;> simp [evalList]
 
-theorem spliceOne_spec (b : Bool) (ch : Q) (nb nt : Bool) (hw : wf nb nt ch = true) (ctx s d) :
-    (∀ c ∈ (spliceOne b ch).1, wf nb nt c = true) ∧
+theorem spliceOne_spec (b : Bool) (ch : Q) (pb : Str → Bool → Bool) (nt : Bool) (hw : wf pb nt ch = true) (ctx s d) :
+    (∀ c ∈ (spliceOne b ch).1, wf pb nt c = true) ∧
     evalList b (spliceOne b ch).1 ctx s d = eval ch ctx s d := by
   unfold spliceOne
   split
@@ -811,10 +821,10 @@ theorem spliceOne_spec (b : Bool) (ch : Q) (nb nt : Bool) (hw : wf nb nt ch = tr
   · refine ⟨by simpa using hw, ?_⟩
     cases b <;> simp [evalList]
 
-theorem flattenL_spec {ctx nb nt} {D : Shard → Doc → Prop} (b : Bool) (cs : List Q)
-    (hch : ∀ c ∈ cs, wf nb nt c = true → wf nb nt (flatten c).1 = true ∧ ∀ s d, D s d → eval (flatten c).1 ctx s d = eval c ctx s d)
-    (hw : ∀ c ∈ cs, wf nb nt c = true) :
-    (∀ c ∈ (flattenL b cs).1, wf nb nt c = true) ∧
+theorem flattenL_spec {ctx pb nt} {D : Shard → Doc → Prop} (b : Bool) (cs : List Q)
+    (hch : ∀ c ∈ cs, wf pb nt c = true → wf pb nt (flatten c).1 = true ∧ ∀ s d, D s d → eval (flatten c).1 ctx s d = eval c ctx s d)
+    (hw : ∀ c ∈ cs, wf pb nt c = true) :
+    (∀ c ∈ (flattenL b cs).1, wf pb nt c = true) ∧
     ∀ s d, D s d → evalList b (flattenL b cs).1 ctx s d = evalList b cs ctx s d := by
   induction cs with
   | nil => simp [flattenL]
@@ -825,19 +835,19 @@ theorem flattenL_spec {ctx nb nt} {D : Shard → Doc → Prop} (b : Bool) (cs : 
     constructor
     · intro x hx
       rcases List.mem_append.mp hx with hx | hx
-      · exact (spliceOne_spec b _ nb nt c1 ctx default default).1 x hx
+      · exact (spliceOne_spec b _ pb nt c1 ctx default default).1 x hx
       · exact i1 x hx
     · intro s d hd
-      rw [evalList_append, (spliceOne_spec b _ nb nt c1 ctx s d).2, i2 s d hd, c2 s d hd]
+      rw [evalList_append, (spliceOne_spec b _ pb nt c1 ctx s d).2, i2 s d hd, c2 s d hd]
       cases b <;> simp [evalList]
 
-theorem flatten_pres {ctx nb nt D} (hD : ScopeOK ctx nt D) : Pres ctx nb nt D (fun q => (flatten q).1) := by
+theorem flatten_pres {ctx pb nt D} (hD : ScopeOK ctx nt D) : Pres ctx pb nt D (fun q => (flatten q).1) := by
   intro q
   induction q using Q.ind with
   | hconst v => intro h; exact ⟨by simpa [flatten] using h, fun _ _ _ => by simp [flatten]⟩
   | hand cs ih =>
     intro h
-    have hw : ∀ c ∈ cs, wf nb nt c = true := by simpa [wf, wfL_eq] using h
+    have hw : ∀ c ∈ cs, wf pb nt c = true := by simpa [wf, wfL_eq] using h
     by_cases h1 : cs.length = 1
     · obtain ⟨c, rfl⟩ := List.length_eq_one_iff.mp h1
       simp only [flatten_and_single]
@@ -849,7 +859,7 @@ theorem flatten_pres {ctx nb nt D} (hD : ScopeOK ctx nt D) : Pres ctx nb nt D (f
       simpa [evalList, eval, evalAll_eq] using this
   | hor cs ih =>
     intro h
-    have hw : ∀ c ∈ cs, wf nb nt c = true := by simpa [wf, wfL_eq] using h
+    have hw : ∀ c ∈ cs, wf pb nt c = true := by simpa [wf, wfL_eq] using h
     by_cases h1 : cs.length = 1
     · obtain ⟨c, rfl⟩ := List.length_eq_one_iff.mp h1
       simp only [flatten_or_single]
@@ -861,13 +871,13 @@ theorem flatten_pres {ctx nb nt D} (hD : ScopeOK ctx nt D) : Pres ctx nb nt D (f
       simpa [evalList, eval, evalAny_eq] using this
   | hnot c ih =>
     intro h
-    have hw : wf nb nt c = true := by simpa [wf] using h
+    have hw : wf pb nt c = true := by simpa [wf] using h
     obtain ⟨i1, i2⟩ := ih hw
     simp only [flatten]
     exact ⟨by simpa [wf] using i1, fun s d hd => by simp [eval, i2 s d hd]⟩
   | htype t c ih =>
     intro h
-    have hw : wf nb nt c = true := by
+    have hw : wf pb nt c = true := by
       simp only [wf, Bool.and_eq_true] at h; exact h.2
     obtain ⟨i1, i2⟩ := ih hw
     simp only [flatten]
@@ -875,14 +885,14 @@ theorem flatten_pres {ctx nb nt D} (hD : ScopeOK ctx nt D) : Pres ctx nb nt D (f
     simp only [wf, Bool.and_eq_true] at h ⊢; exact ⟨h.1, i1⟩
   | hboost w c ih =>
     intro h
-    have hw : wf nb nt c = true := by simpa [wf] using h
+    have hw : wf pb nt c = true := by simpa [wf] using h
     obtain ⟨i1, i2⟩ := ih hw
     simp only [flatten]
     exact ⟨by simpa [wf] using i1, fun s d hd => by simp [eval, i2 s d hd]⟩
   | hcs c _ => intro h; exact ⟨by simpa [flatten] using h, fun _ _ _ => by simp [flatten]⟩
   | hleaf q hl => intro h; simp [flatten_leaf q hl, h]
 
-theorem flattenLoop_pres {ctx nb nt D} (hD : ScopeOK ctx nt D) (n : Nat) : Pres ctx nb nt D (flattenLoop n) := by
+theorem flattenLoop_pres {ctx pb nt D} (hD : ScopeOK ctx nt D) (n : Nat) : Pres ctx pb nt D (flattenLoop n) := by
   induction n with
   | zero => intro q h; exact ⟨by simpa [flattenLoop] using h, fun _ _ _ => by simp [flattenLoop]⟩
   | succ n ih =>
@@ -894,10 +904,10 @@ theorem flattenLoop_pres {ctx nb nt D} (hD : ScopeOK ctx nt D) (n : Nat) : Pres 
       exact ⟨g1, fun s d hd => by rw [g2 s d hd, f2 s d hd]⟩
     · exact ⟨f1, f2⟩
 
-theorem simplify_pres {ctx nb nt D} (hnb : nb = true) (hD : ScopeOK ctx nt D) (hlive : ∀ s d, D s d → s.live d = true) :
-    Pres ctx nb nt D simplify := by
+theorem simplify_pres {ctx pb nt D} (hbr : BranchOK ctx pb D) (hD : ScopeOK ctx nt D) (hlive : ∀ s d, D s d → s.live d = true) :
+    Pres ctx pb nt D simplify := by
   intro q h
-  obtain ⟨e1, e2⟩ := evalConstantsF_pres hnb hD hlive (size q + 1) q h
+  obtain ⟨e1, e2⟩ := evalConstantsF_pres hbr hD hlive (size q + 1) q h
   obtain ⟨f1, f2⟩ := flattenLoop_pres hD (size (evalConstants q) + 1) (evalConstants q) e1
   exact ⟨f1, fun s d hd => by
     show eval (flattenLoop (size (evalConstants q) + 1) (evalConstants q)) ctx s d = _
@@ -1027,7 +1037,7 @@ theorem flattenLoop_fixpoint (n : Nat) (q : Q) (h : size q < n) : (flatten (flat
 
 /-! ### file/content expansion, case scopes -/
 
-theorem expandFileContent_pres {ctx nb nt D} : Pres ctx nb nt D expandFileContent := by
+theorem expandFileContent_pres {ctx pb nt D} : Pres ctx pb nt D expandFileContent := by
   intro q h
   cases q with
   | substr pat cs fn ct =>
@@ -1060,19 +1070,19 @@ theorem expandFileContent_pres {ctx nb nt D} : Pres ctx nb nt D expandFileConten
     · exact ⟨h, fun _ _ _ => rfl⟩
   | _ => exact ⟨by simpa [expandFileContent] using h, fun _ _ _ => by simp [expandFileContent]⟩
 
-theorem expand_pres {ctx nb nt D} (hD : ScopeOK ctx nt D) : Pres ctx nb nt D expand :=
+theorem expand_pres {ctx pb nt D} (hD : ScopeOK ctx nt D) : Pres ctx pb nt D expand :=
   map_pres hD _ expandFileContent_pres
 
 theorem strip_leaf (q : Q) (h : isLeaf q = true) : stripCaseScopes q = q := by
   cases q <;> first | rfl | simp [isLeaf] at h
 
-theorem strip_pres {ctx nb nt D} (hD : ScopeOK ctx nt D) : Pres ctx nb nt D stripCaseScopes := by
+theorem strip_pres {ctx pb nt D} (hD : ScopeOK ctx nt D) : Pres ctx pb nt D stripCaseScopes := by
   intro q
   induction q using Q.ind with
   | hconst v => intro h; exact ⟨by simpa [stripCaseScopes] using h, fun _ _ _ => by simp [stripCaseScopes]⟩
   | hand cs ih =>
     intro h
-    have hw : ∀ c ∈ cs, wf nb nt c = true := by simpa [wf, wfL_eq] using h
+    have hw : ∀ c ∈ cs, wf pb nt c = true := by simpa [wf, wfL_eq] using h
     simp only [stripCaseScopes, stripL_eq]
     refine ⟨?_, fun s d hd => ?_⟩
     · simp only [wf, wfL_eq, List.all_map, List.all_eq_true]
@@ -1081,7 +1091,7 @@ theorem strip_pres {ctx nb nt D} (hD : ScopeOK ctx nt D) : Pres ctx nb nt D stri
       exact all_congr_mem (fun c hc => (ih c hc (hw c hc)).2 s d hd)
   | hor cs ih =>
     intro h
-    have hw : ∀ c ∈ cs, wf nb nt c = true := by simpa [wf, wfL_eq] using h
+    have hw : ∀ c ∈ cs, wf pb nt c = true := by simpa [wf, wfL_eq] using h
     simp only [stripCaseScopes, stripL_eq]
     refine ⟨?_, fun s d hd => ?_⟩
     · simp only [wf, wfL_eq, List.all_map, List.all_eq_true]
@@ -1090,13 +1100,13 @@ theorem strip_pres {ctx nb nt D} (hD : ScopeOK ctx nt D) : Pres ctx nb nt D stri
       exact any_congr_mem (fun c hc => (ih c hc (hw c hc)).2 s d hd)
   | hnot c ih =>
     intro h
-    have hw : wf nb nt c = true := by simpa [wf] using h
+    have hw : wf pb nt c = true := by simpa [wf] using h
     obtain ⟨i1, i2⟩ := ih hw
     simp only [stripCaseScopes]
     exact ⟨by simpa [wf] using i1, fun s d hd => by simp [eval, i2 s d hd]⟩
   | htype t c ih =>
     intro h
-    have hw : wf nb nt c = true := by
+    have hw : wf pb nt c = true := by
       simp only [wf, Bool.and_eq_true] at h; exact h.2
     obtain ⟨i1, i2⟩ := ih hw
     simp only [stripCaseScopes]
@@ -1104,13 +1114,13 @@ theorem strip_pres {ctx nb nt D} (hD : ScopeOK ctx nt D) : Pres ctx nb nt D stri
     simp only [wf, Bool.and_eq_true] at h ⊢; exact ⟨h.1, i1⟩
   | hboost w c ih =>
     intro h
-    have hw : wf nb nt c = true := by simpa [wf] using h
+    have hw : wf pb nt c = true := by simpa [wf] using h
     obtain ⟨i1, i2⟩ := ih hw
     simp only [stripCaseScopes]
     exact ⟨by simpa [wf] using i1, fun s d hd => by simp [eval, i2 s d hd]⟩
   | hcs c ih =>
     intro h
-    have hw : wf nb nt c = true := by simpa [wf] using h
+    have hw : wf pb nt c = true := by simpa [wf] using h
     obtain ⟨i1, i2⟩ := ih hw
     simp only [stripCaseScopes]
     exact ⟨i1, fun s d hd => by simp [eval, i2 s d hd]⟩
@@ -1151,8 +1161,8 @@ theorem simplifyMultiRepo_eval (repos : List Repo) (q : Q) (pred : Repo → Bool
       have := filter_length_zero _ pred h r hmem
       rw [hq, this, eval_const]
 
-theorem simplifyMultiRepo_wf (repos : List Repo) (q : Q) (pred : Repo → Bool) (nb nt : Bool) (h : wf nb nt q = true) :
-    wf nb nt (simplifyMultiRepo repos q pred) = true := by
+theorem simplifyMultiRepo_wf (repos : List Repo) (q : Q) (pred : Repo → Bool) (pb : Str → Bool → Bool) (nt : Bool) (h : wf pb nt q = true) :
+    wf pb nt (simplifyMultiRepo repos q pred) = true := by
   unfold simplifyMultiRepo
   simp only
   split
@@ -1168,12 +1178,12 @@ theorem repoOf_mem {s : Shard} {d : Doc} {r : Repo} (h : s.repoOf d = some r) : 
 /-- documents of shard `s` the search loop looks at -/
 def InShard (s : Shard) : Shard → Doc → Prop := fun s' d => s' = s ∧ s.live d = true
 
-theorem shardAtom_pres (ctx : List Shard) (nb : Bool) (s : Shard) (hv : s.featureVersion ≥ 12) :
-    Pres ctx nb true (InShard s) (shardAtom s) := by
+theorem shardAtom_pres (ctx : List Shard) (pb : Str → Bool → Bool) (s : Shard) (hv : s.featureVersion ≥ 12) :
+    Pres ctx pb true (InShard s) (shardAtom s) := by
   intro q h
   have key : ∀ (pred : Repo → Bool),
       (∀ r d, s.repoOf d = some r → eval q ctx s d = pred r) →
-      wf nb true (simplifyMultiRepo s.repos q pred) = true ∧
+      wf pb true (simplifyMultiRepo s.repos q pred) = true ∧
       ∀ s' d, InShard s s' d → eval (simplifyMultiRepo s.repos q pred) ctx s' d = eval q ctx s' d := by
     intro pred hq
     refine ⟨simplifyMultiRepo_wf _ _ _ _ _ h, ?_⟩
@@ -1220,11 +1230,12 @@ theorem shardAtom_pres (ctx : List Shard) (nb : Bool) (s : Shard) (hv : s.featur
         simp [eval, hr, evalAtom, h4]
   | _ => exact ⟨by simpa [shardAtom] using h, fun _ _ _ => by simp [shardAtom]⟩
 
-theorem shardSimplify_pres (ctx : List Shard) {nb : Bool} (hnb : nb = true) (s : Shard) (hv : s.featureVersion ≥ 12) :
-    Pres ctx nb true (InShard s) (shardSimplify s) := by
+theorem shardSimplify_pres (ctx : List Shard) {pb : Str → Bool → Bool} (s : Shard) (hbr : BranchOK ctx pb (InShard s))
+    (hv : s.featureVersion ≥ 12) :
+    Pres ctx pb true (InShard s) (shardSimplify s) := by
   intro q h
-  obtain ⟨m1, m2⟩ := map_pres (scope_nt ctx _) _ (shardAtom_pres ctx nb s hv) q h
-  obtain ⟨s1, s2⟩ := simplify_pres hnb (scope_nt ctx (InShard s)) (fun _ d hd => by obtain ⟨rfl, hl⟩ := hd; exact hl) _ m1
+  obtain ⟨m1, m2⟩ := map_pres (scope_nt ctx _) _ (shardAtom_pres ctx pb s hv) q h
+  obtain ⟨s1, s2⟩ := simplify_pres hbr (scope_nt ctx (InShard s)) (fun _ d hd => by obtain ⟨rfl, hl⟩ := hd; exact hl) _ m1
   exact ⟨s1, fun s' d hd => by
     show eval (simplify (map (shardAtom s) q)) ctx s' d = _
     rw [s2 s' d hd, m2 s' d hd]⟩
